@@ -82,6 +82,19 @@ Definition run_answer (v : jv) : jv :=
                             ("scan", match scan_plan (keys d) p with SOk _ => jstr "ok" | SRaise => jstr "raise" | SFuel => jstr "fuel" end)])
             plans).
 
+(* many REQs on one store: {db, reqs: [{filters}], default_limit, max_limit} *)
+Definition run_answers (v : jv) : jv :=
+  let d := kvdb_of_jv (jfield "db" v) in
+  let dl := as_opt_int (jfield "default_limit" v) in
+  let mx := as_opt_int (jfield "max_limit" v) in
+  JArr (map (fun r =>
+    JArr (map (fun p => jobj [("ids", jstrs (map w_id (execute_one_plan d p))); ("multi", JBool (is_multi p));
+                              ("full", if is_multi p then jstrs (map w_id (execute_one_plan d
+                                         {| p_query := p_query p; p_index := p_index p; p_limit := None;
+                                            p_since := p_since p; p_until := p_until p |})) else JNull);
+                              ("scan", match scan_plan (keys d) p with SOk _ => jstr "ok" | SRaise => jstr "raise" | SFuel => jstr "fuel" end)])
+              (planner dl mx (filters_of r)))) (as_arr (jfield "reqs" v))).
+
 (* oracles on the implementation's observations: {stored, filter, answer, max_limit} *)
 Definition events_of (v : jv) : list wevent := map wevent_of_jv (as_arr v).
 Definition run_oracle (v : jv) : jv :=
@@ -109,6 +122,6 @@ Definition run_match (v : jv) : jv :=
 
 Definition suites : list (string * (jv -> jv)) :=
   [("kvm.scan", run_scan); ("kvm.scanspec", run_scanspec); ("kvm.multi", run_multi);
-   ("kvm.plan", run_plan); ("kvm.answer", run_answer); ("kvm.oracle", run_oracle);
+   ("kvm.plan", run_plan); ("kvm.answer", run_answer); ("kvm.answers", run_answers); ("kvm.oracle", run_oracle);
    ("kvm.rel", run_rel); ("kvm.match", run_match)].
 Definition dispatch := dispatch_in suites.
